@@ -44,7 +44,7 @@ class Req:
         return False
 
 
-REFUSED = (InvalidHeader, InvalidHeaderName, TypeError, ValueError, UnicodeEncodeError, AssertionError)
+REFUSED = (InvalidHeader, InvalidHeaderName, TypeError, ValueError, UnicodeEncodeError, AssertionError, IndexError)   # IndexError: status of blanks only
 
 
 DATE = "Thu, 01 Jan 2026 00:00:00 GMT"
@@ -123,6 +123,29 @@ def status_tail(tail: str) -> bool:
     if refused:
         return len(s.out) == 0
     return judge_pieces(resp, "200 " + tail, [tail])
+
+
+CODE_ALPHA = ["2", "0", "\r", "\n", "\x00", " ", "\xa0", "x", "\u0100", "\t"]
+
+
+def status_code(i1: int, i2: int, i3: int, i4: int, sep: int) -> bool:
+    """
+    pre: 0 <= i1 < len(CODE_ALPHA) and 0 <= i2 < len(CODE_ALPHA) and 0 <= i3 < len(CODE_ALPHA) and 0 <= i4 < len(CODE_ALPHA)
+    pre: 0 <= sep <= 2
+    post: __return__
+    """
+    # the whole status string is written to the wire, so the part before the first space is judged like the rest: a status
+    # whose code token carries CR / LF / NUL (or anything else that is not field-value text) is refused before a byte is sent.
+    # (A fully symbolic 3-character token through str.split() / int() did not finish in 20 minutes: the solver picks the
+    # characters from the ten that matter to those functions instead.)
+    k = len(CODE_ALPHA) - 1
+    code = "".join(CODE_ALPHA[pick(i, 0, k)] for i in (i1, i2, i3, i4)[:CASE["n"]])
+    sep = pick(sep, 0, 2)
+    status = code + [" OK", "", " "][sep]
+    s, resp, refused = emit(status, [("X-A", "b")], send=True)
+    if refused:
+        return len(s.out) == 0
+    return len(s.out) == 1 and judge_head(s.out[0], resp, status, [code])
 
 
 def header_name(name: str) -> bool:
@@ -354,6 +377,9 @@ OBLIGATIONS = [
        timeout=900, bound="second start_response(exc_info) with status '500 ' + 1..2 (thorough 3) arbitrary characters, exception "
                           "swallowed, head sent afterwards"),
     Ob("C09.status_tail.twin", "status_tail_twin", cases=[{"n": 2}], expect="refute", timeout=120),
+    Ob("C09.status_code", "status_code", cases={"quick": [{"n": 3}], "thorough": [{"n": 3}, {"n": 4}]}, timeout=1800,
+       bound="status = 3 (thorough 4) characters from {2 0 CR LF NUL SP NBSP x U+0100 HTAB} followed by ' OK', nothing, or a single space, "
+             "judged on the wire"),
     Ob("C09.header_name", "header_name", cases=[{"n": n} for n in (0, 1, 2)],
        timeout=1200, bound="one header whose name is 0..2 arbitrary unicode characters (3 characters: ~7000 paths on one core, "
                            "measured not to finish in 20 min; longer names are covered at the gate by C09.lex_smt)"),
